@@ -1,6 +1,10 @@
 import Mhd.Model.FramingRef
+import Mhd.Model.FramingTake
 import Driver.Common
 open Mhd.Framing Driver
+
+/-- the driver runs the connection automaton with the strict head splitter -/
+instance : HeadParser := strictParser
 
 /-!
   Engine `frame` (C03).  One output line per input line.
@@ -11,6 +15,9 @@ open Mhd.Framing Driver
   chunk <lvl> <cur> <off> <bufhex>   one `chunkAct`
   chunkrun <lvl> <cur> <off> <bufhex>   the whole loop of `process_request_body` (chunked, handler takes all)
   token <valuehex> <tokenhex>        `hasToken`
+  bodytake <lvl> <chunked 0|1> <cur|remaining> <off> <takes k,k,…|-> <bufhex>
+                                     one call of `process_request_body` with a handler that takes
+                                     `takes[i]` bytes at most at its i-th invocation (`procBody`)
 -/
 
 def parseInt (s : String) : Option Int :=
@@ -98,6 +105,25 @@ def showChunkRun (s : St) : String :=
     | none => "fault no-response"
   | _ => s!"up={hexOfBytes up} cur=- off=- left=- out=closed"
 
+def parseTakes (s : String) : Option (List Nat) :=
+  if s == "-" then some [] else (s.splitOn ",").mapM (·.toNat?)
+
+def showBodyTake (ntakes : Nat) (r : List Nat × St) : String :=
+  let s := r.2
+  let used := ntakes - r.1.length
+  let up := s.out.foldr (fun e acc => match e with | .upload d => acc ++ d | _ => acc) []
+  let rem := if s.remaining == Mhd.Gen.Framing.sizeUnknown then "unk" else toString s.remaining
+  match s.state with
+  | .bodyReceiving =>
+    s!"up={hexOfBytes up} cur={s.cur} off={s.off} rem={rem} left={s.buf.length} buf={hexOfBytes s.buf} used={used} out=need"
+  | .bodyReceived =>
+    s!"up={hexOfBytes up} cur={s.cur} off={s.off} rem={rem} left={s.buf.length} buf={hexOfBytes s.buf} used={used} out=last"
+  | .fullReplySent =>
+    match s.resp with
+    | some (st, _) => s!"up={hexOfBytes up} cur=- off=- rem=- left={s.buf.length} buf=- used={used} out=err:{st}"
+    | none => "fault no-response"
+  | _ => s!"up={hexOfBytes up} cur=- off=- rem=- left=- buf=- used={used} out=closed"
+
 def stepLine (u : Unit) (ws : List String) : Unit × List String :=
   match ws with
   | "run" :: lvl :: behs :: segs =>
@@ -128,6 +154,16 @@ def stepLine (u : Unit) (ws : List String) : Unit × List String :=
         (u, [showChunkRun (chunkRunFuel l (b.length + 2) s0)])
       else (u, ["bad-op"])
     | _, _, _, _ => (u, ["bad-op"])
+  | ["bodytake", lvl, ch, cur, off, takes, buf] =>
+    match parseInt lvl, cur.toNat?, off.toNat?, parseTakes takes, bytesOfHex buf with
+    | some l, some c, some o, some ts, some b =>
+      if (ch == "1" ∧ o ≤ c ∧ c < 2 ^ 64 ∨ ch == "0" ∧ o = 0 ∧ 0 < c ∧ c < Mhd.Gen.Framing.sizeUnknown) ∧ b ≠ [] ∧ -3 ≤ l ∧ l ≤ 3 then
+        let s0 : St :=
+          if ch == "1" then { state := .bodyReceiving, chunked := true, remaining := Mhd.Gen.Framing.sizeUnknown, cur := c, off := o, buf := b }
+          else { state := .bodyReceiving, chunked := false, remaining := c, buf := b }
+        (u, [showBodyTake ts.length (procBody l (b.length + 2) ts s0)])
+      else (u, ["bad-op"])
+    | _, _, _, _, _ => (u, ["bad-op"])
   | ["token", v, t] =>
     match bytesOfHex v, bytesOfHex t with
     | some vb, some tb => (u, [if hasToken vb tb then "yes" else "no"])
